@@ -2,6 +2,7 @@ package c09
 
 import (
 	"math"
+	"unicode/utf16"
 
 	"verif/internal/gen"
 	"verif/internal/refstr"
@@ -109,6 +110,10 @@ func classOf(s []uint16) string {
 func route(r *gen.Rand) string {
 	return []string{"lit", "esc", "fcc", "cat"}[r.Weighted([]int{20, 1, 16, 8})]
 }
+
+// canonPairs: canonically equivalent spellings (precomposed / decomposed, singleton, Hangul, reordered marks).
+var canonPairs = [][2]string{{"\u00e9", "e\u0301"}, {"\u212b", "\u00c5"}, {"\u00c5", "A\u030a"}, {"\uac00", "\u1100\u1161"}, {"\u1e69", "s\u0323\u0307"},
+	{"s\u0323\u0307", "s\u0307\u0323"}, {"\u00f1", "n\u0303"}, {"\u2126", "\u03a9"}}
 
 func strVal(r *gen.Rand, s []uint16) V { return V{K: "str", S: s, R: route(r)} }
 
@@ -416,12 +421,18 @@ func genCaseSubject(r *gen.Rand, upper bool) []uint16 {
 			s = append(s, uint16(r.Intn(0xD800))) // any BMP unit below the surrogates
 		case k < 19:
 			s = append(s, uint16(0xE000+r.Intn(0x2000)))
-		default:
+		case r.Bool():
 			s = append(s, astral[r.Intn(2)]...)
+		default:
+			s = append(s, astralCased[r.Intn(len(astralCased))]...)
 		}
 	}
 	return s
 }
+
+// astralCased: supplementary letters with a simple case mapping (Deseret, Osage, Adlam, Warang Citi
+// capitals and small letters). ES5.1 15.5.4.16/18 works on code units and transfers surrogates unchanged.
+var astralCased = [][]uint16{{0xD801, 0xDC00}, {0xD801, 0xDC28}, {0xD801, 0xDCB0}, {0xD801, 0xDCD8}, {0xD83A, 0xDD00}, {0xD83A, 0xDD22}, {0xD806, 0xDCA0}, {0xD806, 0xDCC0}}
 
 var indexKeys = []string{"01", "+1", "-0", "1.0", "1e0", " 1", "0x1", "00", "length", "1 ", "-1", "4294967295", "4294967296", "2147483648", "1.5", "NaN", "Infinity", "", "undefined"}
 
@@ -637,6 +648,16 @@ func generate(r *gen.Rand, i int) Input {
 			}
 			in.Args = []V{strVal(r, o)}
 		case k < 7:
+			// canonically equivalent, different code units (15.5.4.9: must compare as 0)
+			if in.This.K == "str" || in.This.K == "sobj" {
+				pair := canonPairs[r.Intn(len(canonPairs))]
+				if r.Bool() {
+					pair[0], pair[1] = pair[1], pair[0]
+				}
+				pre, post := refstr.ASCII([]string{"", "a", "xy"}[r.Intn(3)]), refstr.ASCII([]string{"", "b", "z "}[r.Intn(3)])
+				in.This.S = append(append(append([]uint16{}, pre...), utf16.Encode([]rune(pair[0]))...), post...)
+				in.Args = []V{strVal(r, append(append(append([]uint16{}, pre...), utf16.Encode([]rune(pair[1]))...), post...))}
+			}
 		default:
 			in.Args = []V{genSearch(r, subj)}
 		}
